@@ -444,6 +444,7 @@ func (txn *Txn) InsertKey(key string, fn func(Row) error) error {
 	}
 
 	// If not found, insert at a new index
+	verifYield("key:checked", 0)
 	idx, err := txn.insert(fn, 0)
 	txn.bufferFor(txn.owner.pk.name).PutString(commit.Put, idx, key)
 	return err
@@ -460,6 +461,7 @@ func (txn *Txn) UpsertKey(key string, fn func(Row) error) error {
 	}
 
 	// If not found, insert at a new index
+	verifYield("key:checked", 0)
 	idx, err := txn.insert(fn, 0)
 	txn.bufferFor(txn.owner.pk.name).PutString(commit.Put, idx, key)
 	return err
@@ -529,6 +531,7 @@ func (txn *Txn) commit() {
 	txn.rangeWrite(func(commitID uint64, chunk commit.Chunk, fill bitmap.Bitmap) {
 		if changedRows {
 			txn.commitMarkers(chunk, fill, markers)
+			verifYield("commit:mid-apply", uint32(chunk))
 		}
 
 		// Attemp to update, if nothing was changed we're done
@@ -584,6 +587,7 @@ func (txn *Txn) commitUpdates(chunk commit.Chunk) (updated bool) {
 				}
 			})
 		}
+		verifYield("commit:mid-apply", uint32(chunk))
 	}
 	return updated
 }
